@@ -8,6 +8,8 @@ import (
 	"github.com/polydawn/refmt/json"
 )
 
+var jsonOptsNone = json.EncodeOptions{}
+
 func gen(stream, tier string, seed uint64) {
 	switch stream {
 	case "acc":
@@ -16,6 +18,10 @@ func gen(stream, tier string, seed uint64) {
 		genCborEnc(tier, seed)
 	case "cbordec":
 		genCborDec(tier, seed)
+	case "jsondec":
+		genJsonDec(tier, seed)
+	case "jsonenc":
+		genJsonEnc(tier, seed)
 	default:
 		fmt.Fprintln(os.Stderr, "unknown stream", stream)
 		os.Exit(2)
